@@ -186,12 +186,14 @@ pub fn history(dom: &Domain, seed: u64, hist: u64, sock_dir: &str, out: &mut dyn
     let nclients = rng.gen_range(dom.nclients.0..=dom.nclients.1);
     let limit: usize = if small { 20 } else { *[20usize, 51200].choose(&mut rng).unwrap() };
     let with_kill = dom.kill || rng.gen_bool(0.3);
-    let mut d = Driver::new(nclients, limit, with_kill, sock_dir, hist, out);
+    // one C18 history in six: the shutdown was requested before the kill switch was registered
+    let prekill = dom.kill && hist % 6 == 5;
+    let mut d = Driver::new(nclients, limit, with_kill, prekill, sock_dir, hist, out);
     let mut cs: Vec<CState> = (0..nclients)
         .map(|_| CState { connected: false, closed: false, wr: false, rd: false, outq: VecDeque::new(), nreq: 0, stop_reading: false, nfd: 0 })
         .collect();
     let mut cur_limit = limit;
-    let kill_at = if dom.kill { rng.gen_range(0..dom.steps) } else { usize::MAX };
+    let kill_at = if prekill { rng.gen_range(0..6) } else if dom.kill { rng.gen_range(0..dom.steps) } else { usize::MAX };
     let mut killed = false;
     let mut polls_after_kill = 0;
     let mut i = 0;
@@ -434,7 +436,7 @@ pub fn replay(steps: &Value, sock_dir: &str, out: &mut dyn Write) {
     let Some(first) = steps.first() else { return };
     let nclients = first["nclients"].as_u64().unwrap_or(4) as usize;
     let limit = obs::from_digits(&first["limit"]) as usize;
-    let mut d = Driver::new(nclients, limit, first["kill"].as_bool().unwrap_or(false), sock_dir, first["hist"].as_u64().unwrap_or(0), out);
+    let mut d = Driver::new(nclients, limit, first["kill"].as_bool().unwrap_or(false), first["prekill"].as_bool().unwrap_or(false), sock_dir, first["hist"].as_u64().unwrap_or(0), out);
     for st in steps.iter().skip(1) {
         if st["e"] == "endhist" {
             break;
